@@ -25,5 +25,5 @@ PROPS["C17"] = dict(
     stages=[dict(name="plain", target="c17", flavour="plain",
                  quick=dict(cases=2500, maxsize=90), thorough=dict(cases=60000, maxsize=100)),
             dict(name="asan", target="c17", flavour="asan", leaks=True,
-                 quick=dict(cases=400, maxsize=80), thorough=dict(cases=8000, maxsize=100))],
+                 quick=dict(cases=150, maxsize=80, shards=8), thorough=dict(cases=4000, maxsize=100))],
 )
